@@ -343,3 +343,151 @@ def r19_6_op_reduction(ck, P):
             ck.violation(R, f.name, 'operator reduced to SRC', 'the operator is rewritten to SRC under a condition that is neither (op == OVER and alpha == all-ones) nor (op == CLEAR with a zero colour): %s; operators tested: %s' % (alpha_seen or 'no alpha test', sorted(eq_op)), x.loc())
     if n == 0:
         ck.incomplete(R, 'no operator rewrite found in pixman_image_fill_boxes')
+
+
+def _ty_bytes(t):
+    import re
+    t = t.rstrip('*') if t.endswith('*') else t
+    m = re.match(r'^i(\d+)$', t)
+    if m:
+        return int(m.group(1)) // 8
+    if t == 'x86_mmx' or t == 'double':
+        return 8
+    if t == 'float':
+        return 4
+    m = re.match(r'^<(\d+) x i(\d+)>$', t)
+    if m:
+        return int(m.group(1)) * int(m.group(2)) // 8
+    m = re.match(r'^<(\d+) x (float|double)>$', t)
+    if m:
+        return int(m.group(1)) * (4 if m.group(2) == 'float' else 8)
+    return None
+
+
+STORE_HELPERS = {'save_128_aligned': 16, 'save_128_unaligned': 16, 'save_128_write_combining': 16, '_mm_store_si128': 16, '_mm_storeu_si128': 16, '_mm_stream_si128': 16}
+
+
+def _ptr_off(f, o, depth=0):
+    """(base SSA operand, constant byte offset) of a pointer built by casts and constant GEPs"""
+    off = 0
+    while depth < 20:
+        depth += 1
+        x = f.v(o)
+        if x is None:
+            return o, off
+        if x.op in ('bitcast',):
+            o = x.a[0]; continue
+        if x.op == 'getelementptr':
+            k = 0; ok = True
+            for st in x.d.get('path') or []:
+                if st[0] == 'p' and st[1][0] == 'c':
+                    k += int(st[1][1]) * st[2]
+                elif st[0] == 'f':
+                    k += st[3]
+                else:
+                    ok = False
+            if not ok:
+                return o, off
+            off += k; o = x.a[0]; continue
+        return o, off
+    return o, off
+
+
+def r_byte_budget(ck, P, rid, tail=False):
+    """T-WID: the byte-counted row loops of the SIMD fill/blt primitives"""
+    R = ck.rule(rid, 'in the fill/blt primitives every step that consumes k bytes of the row budget stores at most k bytes from the row cursor and is entered only under budget >= K with K >= k'
+                + ('; the steps without an alignment condition go down to the smallest pixel size the primitive accepts, so no byte of the rectangle is left unwritten' if tail else ': nothing is written beyond the right edge of the rectangle'), floor=20)
+    slots = slot_functions(P)
+    for slot in ('fill', 'blt'):
+        for un, f in sorted(slots[slot].items()):
+            steps = []
+            for b in f.blocks:
+                subs = [x for x in b.insts if (x.op == 'sub' and x.a[1][0] == 'c' and x.a[0][0] == 'v') or (x.op == 'add' and x.a[1][0] == 'c' and int(x.a[1][1]) < 0 and x.a[0][0] == 'v')]
+                geps = [x for x in b.insts if x.op == 'getelementptr' and x.ty in ('i8*',) and x.a[0][0] == 'v' and f.by_id[x.a[0][1]].op == 'phi']
+                for sx in subs:
+                    k = int(sx.a[1][1]) if sx.op == 'sub' else -int(sx.a[1][1])
+                    Wv = sx.a[0]
+                    if f.by_id[Wv[1]].op != 'phi' or k <= 0:
+                        continue
+                    adv = [g for g in geps if _ptr_off(f, ['v', g.i])[1] == k]
+                    if not adv:
+                        continue
+                    steps.append((b, sx, k, Wv, adv))
+            if not steps:
+                continue            # pixel-indexed loops (the portable C primitives) have no byte budget
+            ck.saw(f)
+            unaligned = []
+            for b, sx, k, Wv, adv in steps:
+                cursors = {tuple(g.a[0]) for g in adv}
+                extent = 0; asm = False
+                for x in b.insts:
+                    ptr = None; size = None
+                    if x.op == 'store':
+                        ptr = x.a[1]; pt = f.by_id[ptr[1]].ty if ptr[0] == 'v' else None
+                        size = _ty_bytes(pt) if pt else None
+                    elif x.op == 'call' and x.callee in STORE_HELPERS:
+                        ptr = x.a[0]; size = STORE_HELPERS[x.callee]
+                    elif x.op == 'call' and x.callee is None and x.d.get('callee') is None:
+                        asm = True; continue
+                    elif x.op == 'call' and isinstance(x.callee, str) and x.callee.startswith('llvm.memcpy'):
+                        ptr = x.a[0]; size = int(x.a[2][1]) if x.a[2][0] == 'c' else None
+                    if ptr is None:
+                        continue
+                    base, off = _ptr_off(f, ptr)
+                    if tuple(base) not in cursors:
+                        continue
+                    if size is None:
+                        ck.incomplete(R, '%s: store of unknown width at %s' % (f.name, x.loc())); continue
+                    extent = max(extent, off + size)
+                K = None; aligned = False
+                for t, s_ in f.guard_edges(b.id):
+                    if t.op != 'br' or not t.a:
+                        continue
+                    conds = [t.a[0]]
+                    c0 = f.v(t.a[0])
+                    if c0 is not None and c0.op == 'phi' and c0.ty == 'i1':
+                        conds = [a for a in c0.a if a[0] == 'v']
+                    for co in conds:
+                        c, pred, ops = f.cond(co)
+                        if c is None or c.op != 'icmp':
+                            continue
+                        taken_true = t.d['succ'][0] == s_
+                        if any(o[0] == 'v' and f.v(o) is not None and f.v(o).op == 'and' and any(a[0] == 'v' and f.v(a) is not None and f.v(a).op == 'ptrtoint' for a in f.v(o).a) for o in ops):
+                            # an alignment condition only constrains the step when this edge is the one taken while the cursor is still unaligned
+                            if (pred == 'ne') == taken_true and (co is t.a[0] or taken_true):
+                                aligned = True
+                            continue
+                        if ops[0] == list(Wv) and ops[1][0] == 'c' and taken_true:
+                            kk = int(ops[1][1])
+                            if pred in ('sge', 'uge'):
+                                K = max(K or 0, kk)
+                            elif pred in ('sgt', 'ugt'):
+                                K = max(K or 0, kk + 1)
+                # a phi-of-conditions guard (`a && b` lowered to a phi) hides the budget test one block up
+                if K is None:
+                    for t, s_ in f.guard_edges(b.id):
+                        c0 = f.v(t.a[0]) if t.a else None
+                        if c0 is not None and c0.op == 'phi' and c0.ty == 'i1':
+                            for t2, s2 in f.guard_edges(c0.bb.id) | {(f.blocks[bb].term, c0.bb.id) for bb in c0.d['bb'] if f.blocks[bb].term.a}:
+                                c, pred, ops = f.cond(t2.a[0]) if t2.a else (None, None, None)
+                                if c is not None and c.op == 'icmp' and ops[0] == list(Wv) and ops[1][0] == 'c' and pred in ('sge', 'uge', 'sgt', 'ugt'):
+                                    # only usable if the false edge of that test forces the phi to false
+                                    K = max(K or 0, int(ops[1][1]) + (1 if pred.endswith('gt') else 0))
+                where = '%s step of %d bytes at %s' % (f.name, k, sx.loc())
+                if K is None:
+                    ck.violation(R, f.name, 'step of %d bytes without a budget test' % k, '%s consumes %d bytes of the row budget in a step that is not guarded by a test of the remaining byte count' % (f.name, k), sx.loc())
+                elif K < k or extent > k:
+                    ck.violation(R, f.name, 'step of %d bytes under budget >= %d' % (k, K), '%s enters a step that stores %s and consumes %d bytes when only %d byte(s) of the row are known to remain: it writes past the right edge of the rectangle' % (f.name, ('%d bytes' % extent) if extent else 'through inline assembly', k, K), sx.loc())
+                else:
+                    ck.ok(R, where, 'stores %s, guard budget >= %d%s' % (('%d bytes' % extent) if not asm else 'via inline assembly', K, ', alignment condition' if aligned else ''))
+                if not aligned:
+                    unaligned.append(k)
+            if tail:
+                acc = accept_set(P, f, _bpp_params(f), _ptr_params(f))
+                unit = min(acc) // 8 if acc else None
+                if unit is None or not unaligned:
+                    ck.incomplete(R, '%s: accepted depths or unconditional steps not recognised' % f.name)
+                elif min(unaligned) > unit:
+                    ck.violation(R, f.name, 'smallest unconditional step', '%s accepts %d bpp (%d-byte pixels) but its smallest step without an alignment condition moves %d bytes: a row whose byte count is not a multiple of %d keeps its last byte(s) unwritten while TRUE is returned' % (f.name, min(acc), unit, min(unaligned), min(unaligned)), '%s:%d' % (f.unit.name, f.line))
+                else:
+                    ck.ok(R, '%s: smallest unconditional step %d bytes <= smallest accepted pixel %d bytes' % (f.name, min(unaligned), unit))
